@@ -501,6 +501,7 @@ fn transform_builder(ops: &[Op], m: &[usize], k: &mut Src) -> Vec<Op> {
             };
             match op {
                 Op::Barrier => Op::Barrier,
+                Op::Rejected { dup_of } => Op::Rejected { dup_of: *dup_of },
                 Op::Tl { reads, writes } => Op::Tl {
                     reads: permute(&reads.iter().map(|r| map_res(*r, m)).collect::<Vec<_>>(), k),
                     writes: permute(&writes.iter().map(|r| map_res(*r, m)).collect::<Vec<_>>(), k),
@@ -654,7 +655,7 @@ fn strip_noop_barriers(ops: &[Op]) -> Vec<Op> {
                     removed += 1;
                 }
             }
-            Op::Tl { .. } => out.push(op.clone()),
+            Op::Tl { .. } | Op::Rejected { .. } => out.push(op.clone()),
             Op::Sys { .. } => {
                 since = true;
                 out.push(op.clone());
@@ -675,6 +676,9 @@ fn strip_noop_barriers(ops: &[Op]) -> Vec<Op> {
             for d in deps.iter_mut() {
                 *d -= removed_before[*d];
             }
+        }
+        if let Op::Rejected { dup_of } = o {
+            *dup_of -= removed_before[*dup_of];
         }
     }
     out
@@ -745,7 +749,7 @@ pub fn run_external(property: &'static str, quick: bool, seed: u64) -> crate::dr
     use proptest::prelude::any;
     use proptest::strategy::{Strategy, ValueTree};
     use proptest::test_runner::{Config, RngSeed, TestRunner};
-    let n = if quick { 1500 } else { 60_000 };
+    let n = if quick { 3000 } else { 100_000 };
     let cfg = Config {
         rng_seed: RngSeed::Fixed(seed.wrapping_mul(64).wrapping_add(19)),
         failure_persistence: None,
@@ -758,10 +762,23 @@ pub fn run_external(property: &'static str, quick: bool, seed: u64) -> crate::dr
         tl_in_batch_access: false,
         ..GenCfg::default()
     };
+    // every other plan comes from the funnel class (groups filled to capacity)
+    let fcfg = GenCfg {
+        max_ops: 40,
+        universe_max: 3,
+        max_reads: 1,
+        max_writes: 1,
+        p_barrier: 0,
+        p_batch: 0,
+        p_tl: 0,
+        p_dep: 1,
+        p_static: 0,
+        ..GenCfg::default()
+    };
     let mut plans: Vec<Plan> = vec![];
-    for _ in 0..n {
+    for i in 0..n {
         let stream = strat.new_tree(&mut runner).map(|t| t.current()).unwrap_or_default();
-        plans.push(gen_plan(&mut Src::new(&stream), &gcfg));
+        plans.push(gen_plan(&mut Src::new(&stream), if i % 2 == 0 { &gcfg } else { &fcfg }));
     }
     run_external_on(property, plans, seed)
 }
@@ -769,8 +786,14 @@ pub fn run_external(property: &'static str, quick: bool, seed: u64) -> crate::dr
 fn run_external_on(property: &'static str, plans: Vec<Plan>, seed: u64) -> crate::driver::SubResult {
     use crate::driver::{verif_dir, SubResult, Violation};
     let t0 = std::time::Instant::now();
-    let name = if property == "C19" { "c19-processes" } else { "c05-nopar" };
-    let rule = if property == "C19" {
+    let name = match property {
+        "C19" => "c19-processes",
+        "C20" => "c20-nopar",
+        _ => "c05-nopar",
+    };
+    let rule = if property == "C20" {
+        "generated registration sequences formatted with {:?} (every nested builder) in this process, in a second process and by the harness built WITHOUT the `parallel` feature; oracle: the printed texts are identical (the text of this process is checked against the executed plan by c20-printed); non-trivial = >= 2 stages; distinct = plan hash"
+    } else if property == "C19" {
         "generated registration sequences (general generator) summarised (canonical nested layout) in this process, in a SECOND PROCESS of the same binary (ahash is seeded per process) and by the harness built against shred WITHOUT the `parallel` feature; oracle: the three layouts are identical; non-trivial = >= 2 stages; distinct = plan hash"
     } else {
         "generated registration sequences whose systems apply order-sensitive updates, dispatched 2x sequentially in this process (dispatch_seq + thread-local), in a second process, and by the harness built WITHOUT the `parallel` feature (both dispatch_seq + thread-local and plain dispatch); oracle: world contents, every system's state and run counters are identical in all of them; non-trivial = a resource written by >= 2 systems; distinct = plan hash"
@@ -838,7 +861,7 @@ fn run_external_on(property: &'static str, plans: Vec<Plan>, seed: u64) -> crate
             if mine.get("error").is_some() {
                 continue;
             }
-            let nontrivial = if property == "C19" {
+            let nontrivial = if property == "C19" || property == "C20" {
                 mine["layouts"]["by_bid"]["0"]["stages"].as_array().map(|a| a.len() >= 2).unwrap_or(false)
             } else {
                 let f = compile(plan);
@@ -856,7 +879,11 @@ fn run_external_on(property: &'static str, plans: Vec<Plan>, seed: u64) -> crate
             for (label, v) in &others {
                 let theirs = v.get(i).cloned().unwrap_or(serde_json::Value::Null);
                 let mut diffs = vec![];
-                if property == "C19" {
+                if property == "C20" {
+                    if theirs["printed"] != mine["printed"] {
+                        diffs.push(format!("printed plan differs: {} vs {}", mine["printed"], theirs["printed"]));
+                    }
+                } else if property == "C19" {
                     if theirs["layouts"] != mine["layouts"] {
                         diffs.push(format!("plan differs: {} vs {}", mine["layouts"], theirs["layouts"]));
                     }
